@@ -141,6 +141,7 @@ def _run_sync_call(
         abort_if=abort_if,
     )
     attempt_timeout_s = policy.attempt_timeout_s
+    attempt = 0
 
     for attempt in range(1, policy.max_attempts + 1):
         attempt_state = AttemptState()
@@ -250,7 +251,7 @@ def _run_sync_call(
             last_result=state.last_result,
         )
 
-    raise_exhausted_call(state, policy)
+    raise_exhausted_call(state, policy, attempts=attempt)
 
 
 def _run_sync_execute(
